@@ -557,6 +557,9 @@ enum SeedKind {
     Ready,
     NotReady,
     Dead,
+    /// the node listens on 0.0.0.0 and advertises another address; its seed list is the shared one:
+    /// its own advertised address and an unknown address
+    SelfAndUnknown,
 }
 
 #[derive(Clone, Copy, Debug)]
@@ -612,7 +615,7 @@ async fn round_targets_case(c: RoundCfg, rounds: usize, t: &mut Tally) -> Result
     let dead: Vec<Id> = (0..c.dead).map(|i| rt_member(2, i)).collect();
     let seed: Option<SocketAddr> = match c.seed {
         SeedKind::None => None,
-        SeedKind::Unknown => Some(seed_addr()),
+        SeedKind::Unknown | SeedKind::SelfAndUnknown => Some(seed_addr()),
         SeedKind::Ready => ready.first().map(|i| i.addr),
         SeedKind::NotReady => not_ready.first().map(|i| i.addr),
         SeedKind::Dead => dead.first().map(|i| i.addr),
@@ -621,8 +624,8 @@ async fn round_targets_case(c: RoundCfg, rounds: usize, t: &mut Tally) -> Result
         chitchat_id: real::to_real_id(&server_id()),
         cluster_id: "c".into(),
         gossip_interval: GOSSIP_INTERVAL,
-        listen_addr: server_id().addr,
-        seed_nodes: seed.iter().map(|a| a.to_string()).collect(),
+        listen_addr: if c.seed == SeedKind::SelfAndUnknown { SocketAddr::from(([0, 0, 0, 0], server_id().addr.port())) } else { server_id().addr },
+        seed_nodes: seed.iter().map(|a| a.to_string()).chain((c.seed == SeedKind::SelfAndUnknown).then(|| server_id().addr.to_string())).collect(),
         failure_detector_config: if c.old_dead { FailureDetectorConfig { dead_node_grace_period: Duration::from_secs(60), ..FailureDetectorConfig::default() } } else { FailureDetectorConfig::default() },
         marked_for_deletion_grace_period: Duration::from_secs(3600),
         catchup_callback: None,
@@ -692,6 +695,12 @@ async fn round_targets_case(c: RoundCfg, rounds: usize, t: &mut Tally) -> Result
         d.settle().await;
         let targets: Vec<SocketAddr> = shared.sent.lock().unwrap()[before..].iter().filter(|(_, k, _)| *k == "syn").map(|(a, _, _)| *a).collect();
         t.inc("rounds_observed");
+        if targets.contains(&server_id().addr) {
+            return Err((format!("round {} sent a SYN to the node's own advertised address", round + 1), "round-targets-self".into()));
+        }
+        if c.seed == SeedKind::SelfAndUnknown {
+            t.inc("rounds_with_own_address_in_the_seed_list");
+        }
         let pool = if live.is_empty() { &peers } else { &live };
         if !decomposable(&targets, pool, &deadset, &seeds) {
             let dead_hit = targets.iter().filter(|a| deadset.contains(a)).count();
@@ -721,7 +730,7 @@ async fn round_targets_case(c: RoundCfg, rounds: usize, t: &mut Tally) -> Result
 pub fn round_targets(tier: Tier) -> Part {
     let mut part = Part::new("server/round-targets");
     let rounds = tier.pick(3usize, 12usize);
-    part.rule = format!("the real gossip server over the scripted transport, with and without an extra liveness predicate (READY == true); membership built through real messages: 0..2 live peers satisfying the predicate, 0..2 live peers not satisfying it, 0..{} dead peers (one heartbeat only); seed: none / an unknown address / a ready peer / a not-ready peer / a dead peer; also with a 60 s dead-node grace period and dead peers that have been dead for more than half of it (scheduled for deletion, still in the dead set); {rounds} consecutive rounds observed per configuration; oracle, evaluated on the SYN destinations of each round against Chitchat::live_nodes() / dead_nodes() / known members read under the lock just before the round: the destinations split into at most 3 distinct peers of the pool (live peers, or all known peers when none is live) + at most one dead peer + at most one seed; a seed is contacted when no live peer is known; a dead peer is contacted when dead outnumber live; min(3, live) live peers are contacted. The server's own random generator is not scripted here (the `select` engine enumerates the generator's answers on the selection function itself): the oracle holds for every draw, and a wrong pool is exposed deterministically by the configurations in which it forces a destination outside the allowed sets; non-trivial = configurations with live peers hidden by the predicate", tier.pick(4, 5));
+    part.rule = format!("the real gossip server over the scripted transport, with and without an extra liveness predicate (READY == true); membership built through real messages: 0..2 live peers satisfying the predicate, 0..2 live peers not satisfying it, 0..{} dead peers (one heartbeat only); seed: none / an unknown address / a ready peer / a not-ready peer / a dead peer / the shared list (own advertised address + unknown address) on a node that listens on 0.0.0.0 (listen address != advertised address; no SYN may go to the node itself and the real seed must be contacted when no peer is live); also with a 60 s dead-node grace period and dead peers that have been dead for more than half of it (scheduled for deletion, still in the dead set); {rounds} consecutive rounds observed per configuration; oracle, evaluated on the SYN destinations of each round against Chitchat::live_nodes() / dead_nodes() / known members read under the lock just before the round: the destinations split into at most 3 distinct peers of the pool (live peers, or all known peers when none is live) + at most one dead peer + at most one seed; a seed is contacted when no live peer is known; a dead peer is contacted when dead outnumber live; min(3, live) live peers are contacted. The server's own random generator is not scripted here (the `select` engine enumerates the generator's answers on the selection function itself): the oracle holds for every draw, and a wrong pool is exposed deterministically by the configurations in which it forces a destination outside the allowed sets; non-trivial = configurations with live peers hidden by the predicate", tier.pick(4, 5));
     let dmax = tier.pick(4usize, 5usize);
     let mut cfgs = vec![];
     for (predicate, old_dead) in [(false, false), (true, false), (false, true)] {
@@ -731,7 +740,7 @@ pub fn round_targets(tier: Tier) -> Part {
                     continue;
                 }
                 for dead in 0..=dmax {
-                    for seed in [SeedKind::None, SeedKind::Unknown, SeedKind::Ready, SeedKind::NotReady, SeedKind::Dead] {
+                    for seed in [SeedKind::None, SeedKind::Unknown, SeedKind::Ready, SeedKind::NotReady, SeedKind::Dead, SeedKind::SelfAndUnknown] {
                         let exists = match seed {
                             SeedKind::Ready => ready > 0,
                             SeedKind::NotReady => not_ready > 0,
@@ -788,6 +797,7 @@ pub fn round_targets(tier: Tier) -> Part {
     part.sample(json!({"predicate": true, "ready": 0, "not_ready": 1, "dead": 3, "seed": "Unknown"}));
     part.require("cases_with_live_peers_hidden_by_the_predicate");
     part.require("cases_with_dead_peers_scheduled_for_deletion");
+    part.require("rounds_with_own_address_in_the_seed_list");
     part.require("rounds_observed");
     part
 }
@@ -1314,6 +1324,7 @@ pub fn replay(v: &Value) -> Result<(), String> {
             "Ready" => SeedKind::Ready,
             "NotReady" => SeedKind::NotReady,
             "Dead" => SeedKind::Dead,
+            "SelfAndUnknown" => SeedKind::SelfAndUnknown,
             _ => SeedKind::None,
         };
         let c = RoundCfg {
